@@ -46,10 +46,19 @@ def run_cases(ctx, exe, orac, cases, prop, label):
         ctx.case("\n".join(prog), nontrivial=any(" append " in l for l in lines))
         ctx.count("kind:" + meta["kind"])
         if rc not in (0, 42, 43):
+            info = [k for p, k, m in pipelib.oracle(prog, lines, meta) if p == "INFO"]
+            if info:
+                # the crash follows a configure issued while the stream was running (a device closed / re-armed under a worker)
+                if prop == "C08":
+                    ctx.violation("[C08] the runtime crashed after acquire_configure was called while a stream was running: %s" % (err or "")[-600:],
+                                  {"program": prog, "stderr": (err or "")[-3000:], "tail": lines[-10:]}, key="C08:" + info[0])
+                continue
             ctx.violation("[%s] the runtime crashed or a sanitizer reported an error: %s" % (prop, (err or "")[-600:]),
                           {"program": prog, "stderr": (err or "")[-3000:], "tail": lines[-10:]}, key=prop + ":crash")
             continue
         for p, key, msg in pipelib.oracle(prog, lines, meta):
+            if p == "INFO":
+                continue
             k = attribute(prop, p, key, prog)
             ctx.count("oracle:%s:%s" % (p, key))
             if k is not None:
@@ -60,6 +69,9 @@ def run_cases(ctx, exe, orac, cases, prop, label):
             ctx.count("model-scope-skip:" + why[:50])
             continue
         ev, src = pipelib.to_events(prog, lines)
+        if ev.scope is not None:
+            ctx.count("model-scope-skip:" + ev.scope[:50])
+            continue
         traces.append(("%s%d" % (label, n), ev, prog, lines, src))
     if traces:
         out = pipelib.model_run(orac, [(t[0], t[1]) for t in traces])
